@@ -8,13 +8,14 @@ import z3
 
 from . import ops
 from .excs import EXT_CLASS_NAMES, ExcLattice
+from .anyval import AnyMixin
 from .interp_call import CallMixin, ReturnSig
 from .interp_expr import Env, ExprMixin, PyRaise
 from .ops import bterm, rterm, term, wrap_bool, wrap_int, wrap_real
 from .path import Path, PathEnd, SolverFront, Unsupported
 from .source import SourceTree
 from .values import (UNDEF, AnyV, BoundV, ClassV, DequeV, EnumMap, EnumSet, EnumVal, EnvFn, ExtV, FuncV,
-                     LambdaV, LockV, MethodRef, ModuleV, Obj, PySet, Ref, SFloat, SOpt, Sym, TimeDelta,
+                     LambdaV, LockV, MethodRef, ModuleV, Obj, PySet, Ref, SeqV, SFloat, SOpt, Sym, TimeDelta,
                      fresh_name, reset_names)
 
 
@@ -48,7 +49,7 @@ class LoopSpec:
         self.extra_locals = extra_locals or {}
 
 
-class Interp(ExprMixin, CallMixin):
+class Interp(ExprMixin, CallMixin, AnyMixin):
     POISON = Poison()
 
     def __init__(self, tree: SourceTree | None = None, timeout_ms=10000):
@@ -75,6 +76,7 @@ class Interp(ExprMixin, CallMixin):
         self.frames = []
         self.functions_entered = set()
         self.any_tags = {}
+        self._any_init()
         self.lines_executed = set()
 
     # ------------------------------------------------------------------ statements
@@ -327,6 +329,10 @@ class Interp(ExprMixin, CallMixin):
                 if spec is None:
                     raise Unsupported(f"loop without invariant at {env.func.key}:{node.lineno}")
                 return self.exec_spec_loop(node, env, spec, lo=lo, hi=hi)
+        elif isinstance(it, SeqV):
+            if spec is None:
+                raise Unsupported(f"loop over a symbolic sequence without invariant at {env.func.key}:{node.lineno}")
+            return self.exec_spec_loop(node, env, spec, lo=0, hi=Sym(it.length, "int"), seq=it)
         else:
             items = self.iterate(it)
         broke = False
@@ -563,7 +569,7 @@ class Interp(ExprMixin, CallMixin):
             out.append(("nothing-else-modified", True))
         return out
 
-    def exec_spec_loop(self, node, env, spec: LoopSpec, lo=None, hi=None):
+    def exec_spec_loop(self, node, env, spec: LoopSpec, lo=None, hi=None, seq=None):
         fkey = env.func.key
         k = self.loop_ordinal(env, node)
         base = f"{fkey}/loop#{k}"
@@ -604,7 +610,7 @@ class Interp(ExprMixin, CallMixin):
                 for (n, f) in spec.inv(self, env, idx, ctx):
                     path.assume(f)
                 path.assume_checked(True)
-                self.assign_target(node.target, idx, env)
+                self.assign_target(node.target, idx if seq is None else seq.elem(idx.t), env)
             else:
                 for (n, f) in spec.inv(self, env, None, ctx):
                     path.assume(f)
